@@ -2,7 +2,8 @@
 prints the rendered diagnostics of every step.
 
 stdin  : JSON {"programs": {name: source}, "plan": [name | "lib:<name>", ...], "libs": {module name: source},
-               "shared_checker": bool, "perturb": int, "unit": bool, "unit_cases": [...]}
+               "shared_checker": bool, "perturb": int, "unit_cases": [...],
+               "isolate": bool   (each plan item is checked in a forked child: no history at all)}
 stdout : last line `@@JSON <doc>`; doc["runs"][i] = rendered diagnostics of plan[i]
          (list of [code, lineno, col, message] in emission order) or {"crash": text}.
 
@@ -152,6 +153,45 @@ def _or_constraint_order(codes):
     return [TYPES.index(c.value) for c in members]
 
 
+def check_isolated(src, checker_factory):
+    """Check `src` in a forked child: nothing checked before (or after) it in this
+    process can influence the result -- the reference for history independence."""
+    import os
+
+    r, w = os.pipe()
+    pid = os.fork()
+    if pid == 0:
+        try:
+            os.close(r)
+            try:
+                import contextlib
+                import io
+
+                with contextlib.redirect_stderr(io.StringIO()), contextlib.redirect_stdout(io.StringIO()):
+                    out = check_one(src, checker_factory())
+            except BaseException as ex:  # noqa
+                out = {"crash": f"{type(ex).__name__}: {ex}"[:500]}
+            data = json.dumps(out).encode()
+            while data:
+                n = os.write(w, data)
+                data = data[n:]
+        finally:
+            os._exit(0)
+    os.close(w)
+    chunks = []
+    while True:
+        b = os.read(r, 1 << 16)
+        if not b:
+            break
+        chunks.append(b)
+    os.close(r)
+    os.waitpid(pid, 0)
+    try:
+        return json.loads(b"".join(chunks).decode())
+    except ValueError:
+        return {"crash": "isolated child produced no result"}
+
+
 def main():
     req = json.loads(sys.stdin.read())
     keep = []
@@ -181,6 +221,8 @@ def main():
                 if name.startswith("lib:"):
                     lname = name[4:]
                     doc["runs"].append(check_one(req["libs"][lname], checker, existing_module=libs[lname]))
+                elif req.get("isolate"):
+                    doc["runs"].append(check_isolated(req["programs"][name], lambda: checker))
                 else:
                     doc["runs"].append(check_one(req["programs"][name], checker))
         except BaseException as ex:  # noqa
